@@ -220,6 +220,15 @@ fn clean_scenario(n: usize, nacts: usize, kinds: u8, only_clean_other: bool, int
             oracle_clean(300);
         }
     }
+    // clean() may also be called when the owners are already unreachable but not collected yet
+    let late = any_below(nacts as u8 + 1) as usize;
+    if late < nacts {
+        if let Some(cl) = &acts().cleanable[late] {
+            cl.clean();
+        }
+        check(acts().count[late] <= 1, 351);
+        oracle_clean(350);
+    }
     collect_quiescent(4, 400);
     oracle_safety(400);
     oracle_rc(400);
@@ -313,6 +322,70 @@ pub fn h_clean_panic() {
     guarded(|| collect_quiescent(4, 500));
     oracle_safety(500);
     oracle_clean(500);
+    cover(1);
+}
+
+/// An action holds the last Cc to a finalizable helper whose finalizer upgrades a Weak to a member of the owner's cycle:
+/// when the collector destroys the cycle, the action runs, the helper is released by a nested plain drop and its finalizer
+/// must not be able to reach a condemned object (C10: actions never reach a dropped object; C08).
+#[no_mangle]
+pub fn h_clean_helper() {
+    for i in 0..3 {
+        new_node(i);
+    }
+    set_slot(0, 0, 1);
+    set_slot(1, 0, 0);
+    let owner = any_below(2) as usize;
+    let target = any_below(2) as usize;
+    if let (Some(h), Some(t)) = (handle(2), handle(target)) {
+        *h.wslot() = Some(t.downgrade());
+        w().wedge[2] = target as u8;
+    }
+    w().fin_act[2] = if any_below(2) == 1 { F_UPGRADE_STASH } else { F_NONE };
+    w().drop_act[2] = if any_below(2) == 1 { D_UPGRADE } else { D_NONE };
+    // the action captures the only remaining Cc to the helper
+    {
+        let a = acts();
+        a.owner[0] = owner as u8;
+        a.kind[0] = A_DROP_CC;
+        let cc = handle(2).map(|c| c.clone());
+        a.captured[0] = 2;
+        a.registered[0] = true;
+        let cl = handle(owner).unwrap().cleaner.register(move || run_action(0, cc, None));
+        a.cleanable[0] = Some(cl);
+    }
+    if any_below(2) == 1 {
+        register(1, 1 - owner, A_NOOP, 2);
+    }
+    drop_h(2);
+    oracle_safety(100);
+    for i in 0..2 {
+        if any_below(2) == 1 {
+            clone_h(i);
+            drop_h2(i);
+        }
+    }
+    for i in 0..2 {
+        if any_below(2) == 1 {
+            drop_h(i);
+            oracle_safety(200);
+            oracle_rc(200);
+            oracle_clean(200);
+        }
+    }
+    collect_quiescent(4, 300);
+    oracle_safety(300);
+    oracle_rc(300);
+    oracle_clean(300);
+    for i in 0..MAXN {
+        drop_stash(i);
+    }
+    for i in 0..2 {
+        drop_h(i);
+    }
+    collect_quiescent(4, 400);
+    oracle_safety(400);
+    oracle_clean(400);
     cover(1);
 }
 
